@@ -11,7 +11,7 @@ import (
 )
 
 var c07Floor = []string{"cte.1", "cte.chain2", "cte.chain3", "cte.twice.join", "cte.twice.union", "cte.twice.insub", "cte.selector", "derived", "derived.where",
-	"subq.nested", "subq.root", "subq.in", "subq.agg", "exists", "exists.outer", "subq.root-correlated", "derived.join", "subq.with", "agg.stages", "inner.agg", "inner.order", "inner.filter", "cte.mixedcase", "exists.outer.marker", "exists.sparse", "subq.in.null-left", "exists.shadow", "exists.outer.marker-is", "cte.named-like-its-table"}
+	"subq.nested", "subq.root", "subq.in", "subq.agg", "exists", "exists.outer", "subq.root-correlated", "derived.join", "subq.with", "agg.stages", "inner.agg", "inner.order", "inner.filter", "cte.mixedcase", "exists.outer.marker", "exists.sparse", "subq.in.null-left", "exists.shadow", "exists.outer.marker-is", "cte.named-like-its-table", "cte.nested-with", "cte.nested-with.twice", "subq.in.qualified-item", "subq.notin"}
 
 func init() {
 	fw.Register(&fw.Prop{
@@ -291,6 +291,36 @@ func c07Run(c *fw.Case) {
 				if c.Chance(0.5) {
 					inner += " WHERE " + gen.RenderPred((&gen.PredGen{R: c.R, T: t, MaxDepth: 1, Disable: map[string]bool{"in.subquery": true, "isnull": true, "isnotnull": true}}).Gen(), gen.RenderOpts{})
 				}
+			} else if c.Chance(0.3) {
+				// the body opens a WITH of its own (a scope inside the scope)
+				wname := fmt.Sprintf("w%d", i)
+				wsrc := "SELECT * FROM " + from
+				if c.Chance(0.4) {
+					// the inner scope reads the outer name twice
+					wsrc += " UNION ALL SELECT * FROM " + from
+					feats = append(feats, "cte.nested-with.twice")
+				}
+				wrows, ok := stage(staged, wsrc)
+				if !ok {
+					return
+				}
+				staged = val.CopyMap(staged)
+				staged[wname] = val.Copy(wrows)
+				body := c07Simple(c, wname, cur, "", i == n || c.Chance(0.3), &feats, "inner")
+				rows, ok := stage(staged, body)
+				if !ok {
+					return
+				}
+				inner = "WITH " + wname + " AS (" + wsrc + ") " + body
+				feats = append(feats, "cte.nested-with")
+				stagedSQL = append(stagedSQL, wname+" := "+wsrc)
+				staged = val.CopyMap(staged)
+				staged[name] = val.Copy(rows)
+				withParts = append(withParts, name+" AS ("+inner+")")
+				stagedSQL = append(stagedSQL, name+" := "+body)
+				cur = tableFromRows(name, rows)
+				from = name
+				continue
 			} else {
 				inner = c07Simple(c, from, cur, "", i == n || c.Chance(0.3), &feats, "inner")
 			}
@@ -686,10 +716,33 @@ func c07Run(c *fw.Case) {
 			doc = DocOf(t, u)
 			feats = append(feats, "subq.in.null-left")
 		}
-		composed := "SELECT rid FROM t1 WHERE n1 IN (SELECT e FROM arr)"
-		standalone := "SELECT e FROM arr"
+		nullLeft := containsStr(feats, "subq.in.null-left")
+		// the subquery's one item may be spelled bare, qualified by the
+		// subquery's table alias, or qualified and aliased
+		spell := c.Intn(3)
+		item := func(col, alias string) (string, string) {
+			switch spell {
+			case 1:
+				feats = append(feats, "subq.in.qualified-item")
+				return alias + "." + col, " " + alias
+			case 2:
+				feats = append(feats, "subq.in.qualified-item")
+				return alias + "." + col + " AS " + col, " " + alias
+			}
+			return col, ""
+		}
+		neg := !nullLeft && c.Chance(0.3)
+		in := " IN "
+		if neg {
+			in = " NOT IN "
+			feats = append(feats, "subq.notin")
+		}
+		it, al := item("e", "a")
+		composed := "SELECT rid FROM t1 WHERE n1" + in + "(SELECT " + it + " FROM arr" + al + ")"
+		standalone := "SELECT " + it + " FROM arr" + al
 		if c.Chance(0.5) {
-			composed = "SELECT rid FROM t1 WHERE n1 IN (SELECT un1 FROM `<-u1`)"
+			it, al = item("un1", "w")
+			composed = "SELECT rid FROM t1 WHERE n1" + in + "(SELECT " + it + " FROM `<-u1`" + al + ")"
 			standalone = ""
 		}
 		o := Run(fresh(), composed)
@@ -717,11 +770,15 @@ func c07Run(c *fw.Case) {
 					vals = append(vals, ur["un1"])
 				}
 			}
+			member := false
 			for _, v := range vals {
 				if val.Equal(v, row["n1"]) {
-					want = append(want, row["rid"])
+					member = true
 					break
 				}
+			}
+			if member != neg {
+				want = append(want, row["rid"])
 			}
 		}
 		det["expected_rids"] = want
